@@ -180,7 +180,7 @@ impl Scenario for C06 {
             components_stubbed: &["TCP (SimNet)", "EPMD (stub)", "remote node (conforming sender model with an independent encoder)"],
             assumptions: &["junk frames never touch atom-cache slots the sender model uses (reserved segment 7) and use sequence ids disjoint from valid fragments", "fragmented messages use header entries in reserved segment 6 so that the known fragment defect cannot cascade into later messages"],
             fault_prefixes: &["fault.", "net."],
-            expected_probes: &["probe.c06.ok_passthrough", "probe.c06.ok_header", "probe.c06.tick_skipped", "probe.c06.junk_rejected", "probe.c06.message_after_junk_intact", "probe.c06.fragmented_sent", "probe.c06.read_half_api", "probe.c06.raw_api", "probe.c06.junk_with_intact_header", "probe.c06.read_half_short_timeout", "probe.c06.idle_timeout_retried", "probe.c06.receive_cancelled_while_idle"],
+            expected_probes: &["probe.c06.ok_passthrough", "probe.c06.ok_header", "probe.c06.tick_skipped", "probe.c06.junk_rejected", "probe.c06.message_after_junk_intact", "probe.c06.fragmented_sent", "probe.c06.read_half_api", "probe.c06.raw_api", "probe.c06.junk_with_intact_header", "probe.c06.read_half_short_timeout", "probe.c06.idle_timeout_retried", "probe.c06.receive_cancelled_while_idle", "probe.c06.switched_from_connection_to_read_half"],
         }
     }
 }
@@ -547,12 +547,24 @@ async fn scenario(w: &Arc<World>, p: &Plan) {
     }
     let results = if p.read_half && !p.header_mode {
         w.stat("probe.c06.read_half_api");
+        // some callers receive a message or two through the Connection first and switch to the split reader then
+        let first = ((p.salt >> 3) % 4).min(n as u64) as usize;
+        let first = if (p.salt >> 3) % 4 == 3 { 0 } else { first };
+        let mut out: Vec<Got> = Vec::new();
+        for _ in 0..first {
+            out.push(match conn.receive_message().await {
+                Ok((c, pl)) => Ok((to_val(&c.to_term()), pl.as_ref().map(to_val))),
+                Err(e) => Err(e.to_string()),
+            });
+        }
+        if first > 0 {
+            w.stat("probe.c06.switched_from_connection_to_read_half");
+        }
         let Some(mut half) = conn.take_read_half() else {
             w.violation("HARNESS-setup", "take_read_half returned None on a connected connection".to_string());
             return;
         };
-        let mut out: Vec<Got> = Vec::new();
-        for _ in 0..n + 1 {
+        for _ in first..n + 1 {
             let t = if p.rh_timeout_ms > 0 { Duration::from_millis(p.rh_timeout_ms) } else { Duration::from_secs(3600) };
             if p.rh_timeout_ms > 0 {
                 w.stat("probe.c06.read_half_short_timeout");
